@@ -355,7 +355,9 @@ def run(ctx):
     for i in ctx.mine(n):
         r = ctx.rng("program", i)
         big = not ctx.quick and i % 4 == 0
-        p = gen_program(r, max_depth=5 if big else 3, budget=120 if big else 40)
+        force = ("rowpoly-call",) if i % 8 == 0 else ()
+        p = gen_program(r, max_depth=5 if big else 3, budget=120 if big else 40,
+                        kind="module" if force else None, force=force)
         nn = ctx.guard("program", p, check_program, ctx, p)
         ctx.case("program", p, nn is not None and nontrivial(p, nn))
 
